@@ -17,9 +17,11 @@ grammar (DESIGN §6.4-L2), which is not completed; it is exercised by the metamo
 suite on the real code and by the correspondence run on both renderings.
 -/
 import SecsModel.Model.Lexer
+import SecsModel.Proofs.LexLayout
+import SecsModel.Proofs.ParserNat
 import SecsModel.Generated.Facts
 namespace Secs.C08
-open Secs Secs.Lex
+open Secs Secs.Lex Secs.Sml
 
 theorem spanB_stop (p : Nat → Bool) (c : Bytes) (b : Nat) (r : Bytes)
     (hc : ∀ x ∈ c, p x = true) (hb : p b = false) : spanB p (c ++ b :: r) = (c, b :: r) := by
@@ -121,6 +123,109 @@ theorem header_tokens_upper (p : Pos) (v : Bytes) (h : matchSF p.rest = some v)
     rw [hr] at h hc
     simp only [hc, Bool.false_eq_true, if_false, h]
     exact ⟨_, _, _, rfl, rfl, rfl⟩
+
+/-! ### whole texts: what the parser returns is independent of layout
+
+`Outcome.content` is what a parse says apart from positions: the messages, the error texts and
+the warning texts, in order. -/
+
+def notComment (t : Tok) : Bool := t.kind != .comment
+
+theorem parse_eq (ual : List Nat) (input : Bytes) :
+    parse ual input = parseToks ((lexFrom ual .header input).filter notComment) := rfl
+
+theorem filter_erase (l : List Tok) : (l.filter notComment).map eraseTok = (l.map eraseT).filter notComment := by
+  induction l with
+  | nil => rfl
+  | cons t l ih =>
+    simp only [List.filter_cons, List.map_cons]
+    have : notComment (eraseT t) = notComment t := rfl
+    rw [this]
+    split
+    · simp only [List.map_cons, ih]; rfl
+    · exact ih
+
+/-- token streams equal up to positions parse to the same content -/
+theorem content_of_erased (t1 t2 : List Tok) (h : t1.map eraseT = t2.map eraseT) :
+    (parseToks (t1.filter notComment)).content = (parseToks (t2.filter notComment)).content := by
+  apply positions_irrelevant
+  rw [filter_erase, filter_erase, h]
+
+/-- … and also when they differ by comment tokens -/
+theorem content_of_erased_modulo_comments (t1 t2 : List Tok)
+    (h : (t1.map eraseT).filter notComment = (t2.map eraseT).filter notComment) :
+    (parseToks (t1.filter notComment)).content = (parseToks (t2.filter notComment)).content := by
+  apply positions_irrelevant
+  rw [filter_erase, filter_erase, h]
+
+/-- Any amount and kind of white space (blanks, tabs, CR, LF) in front of a text changes
+nothing in what is parsed. -/
+theorem leading_blanks_invisible (ual : List Nat) (ws y : Bytes) (hws : ∀ b ∈ ws, isBlank b = true) :
+    (parse ual (ws ++ y)).content = (parse ual y).content := by
+  rw [parse_eq, parse_eq]
+  exact content_of_erased _ _ (blank_run_invisible ual .header ws y hws)
+
+/-- A comment line with any bytes in front of a text changes nothing in what is parsed. -/
+theorem leading_comment_invisible (ual : List Nat) (c y : Bytes) (hc : ∀ x ∈ c, x ≠ 10) :
+    (parse ual (47 :: 47 :: c ++ 10 :: y)).content = (parse ual y).content := by
+  rw [parse_eq, parse_eq]
+  exact content_of_erased_modulo_comments _ _ (comment_invisible ual .header c y hc)
+
+/-- the lexer, started in `(m, p)`, emits `ts` and stands in `(m', p')` -/
+inductive Reach (ual : List Nat) : Mode → Pos → List Tok → Mode → Pos → Prop
+  | refl (m : Mode) (p : Pos) : Reach ual m p [] m p
+  | step {m m1 m' : Mode} {p p1 p' : Pos} {t : Tok} {ts : List Tok} :
+      lexStep ual m p = .tok t m1 p1 → Reach ual m1 p1 ts m' p' → Reach ual m p (t :: ts) m' p'
+
+theorem reach_stream (ual : List Nat) {m m' : Mode} {p p' : Pos} {ts : List Tok} (h : Reach ual m p ts m' p') :
+    ∀ fuel, p.rest.length < fuel →
+      (lexFuel ual fuel m p).map eraseT = ts.map eraseT ++ (lexFrom ual m' p'.rest).map eraseT := by
+  induction h with
+  | refl m p => intro fuel hf; simpa using lexFuel_eq_lexFrom ual m p fuel hf
+  | step hs _ ih =>
+    intro fuel hf
+    cases fuel with
+    | zero => omega
+    | succ n =>
+      rw [lexFuel, hs]
+      have hd := lexStep_decreases ual _ _ _ _ _ hs
+      simp only [List.map_cons, List.cons_append]
+      rw [ih n (by omega)]
+
+/-- **Layout invariance at a token boundary.** Two texts are lexed until the lexer looks for the
+next token; so far they gave the same tokens (positions aside). From there one continues with a
+run of white space, the other with another run, or with a comment line of any content, and
+then both continue with the same text `y`. Then both parse to the same messages and the same
+diagnostic texts. -/
+theorem layout_invariance_at_boundary (ual : List Nat) (in1 in2 : Bytes) (ts1 ts2 : List Tok) (m : Mode)
+    (p1 p2 : Pos)
+    (r1 : Reach ual .header ⟨in1, 1, []⟩ ts1 m p1) (r2 : Reach ual .header ⟨in2, 1, []⟩ ts2 m p2)
+    (hts : ts1.map eraseT = ts2.map eraseT)
+    (h : ((lexFrom ual m p1.rest).map eraseT).filter notComment = ((lexFrom ual m p2.rest).map eraseT).filter notComment) :
+    (parse ual in1).content = (parse ual in2).content := by
+  rw [parse_eq, parse_eq]
+  apply content_of_erased_modulo_comments
+  unfold lexFrom
+  rw [reach_stream ual r1 _ (by simp), reach_stream ual r2 _ (by simp), hts]
+  simp only [List.filter_append, h]
+
+/-- the two instances of the hypothesis `h` above -/
+theorem boundary_blank_runs (ual : List Nat) (m : Mode) (ws ws' y : Bytes)
+    (h : ∀ b ∈ ws, isBlank b = true) (h' : ∀ b ∈ ws', isBlank b = true) :
+    ((lexFrom ual m (ws ++ y)).map eraseT).filter notComment = ((lexFrom ual m (ws' ++ y)).map eraseT).filter notComment := by
+  rw [blank_runs_equivalent ual m ws ws' y h h']
+
+theorem boundary_comment (ual : List Nat) (m : Mode) (ws c y : Bytes) (hws : ∀ b ∈ ws, isBlank b = true)
+    (hc : ∀ x ∈ c, x ≠ 10) :
+    ((lexFrom ual m (ws ++ (47 :: 47 :: c ++ 10 :: y))).map eraseT).filter notComment =
+      ((lexFrom ual m (10 :: y)).map eraseT).filter notComment := by
+  rw [blank_run_invisible ual m ws _ hws]
+  have := comment_invisible ual m c y hc
+  have e : ∀ l : List Tok, l.filter notComment = l.filter (fun t => t.kind != .comment) := fun _ => rfl
+  rw [e, e, this]
+  have hb := blank_run_invisible ual m [10] y (by simp [isBlank])
+  rw [show [10] ++ y = 10 :: y by rfl] at hb
+  rw [hb]
 
 /-! ### tie to the source: what the two main states skip, and the comment trimming set -/
 theorem facts_whitespace :
